@@ -143,6 +143,7 @@ def run(check):
                    path=gt.describe_path(p), construct='settings.MIN_TIMESTAMP_LAG = 0')
     else:
       r_tr.ok('MIN_TIMESTAMP_LAG = 0 on every returning path (incl. handler paths)', trig.loc(zero[0].ast))
+    rule_unset_option(check, cx, trig, r_tr)
     # re-rating of buckets in place
     names = set(receiver_names(cx, trig, 'setCapacityAndFillRate'))
     for b in ('UPDATE_BUCKET', 'CREATE_BUCKET'):
@@ -265,3 +266,79 @@ def run(check):
     r_th.violate('writer not started in thread pool', ss, None,
                  'WriterService.startService does not start writeForever with reactor.callInThread, so shutdown '
                  'does not wait for the final drain', construct='reactor.callInThread(writeForever)')
+  rule_stable_globals(check, cx, check.rule('R-C04-stable-globals', 1, 'globals the writer thread tests and then dereferences are not rebound by the reactor thread'))
+
+
+def rule_unset_option(check, cx, trig, rule):
+  """the shutdown trigger reads options that have no built-in default (MAX_UPDATES_PER_SECOND_ON_SHUTDOWN): what the settings
+  object raises for an unset option must be caught where it is read, otherwise the trigger dies before it zeroes the lag."""
+  from ..rulelib import conf_defaults, settings_miss_exceptions
+  defaults = conf_defaults(check.repo)
+  miss = settings_miss_exceptions(check.repo)
+  if not rule.require(defaults is not None and miss is not None, 'carbon.conf defaults table / Settings class not found'):
+    return
+  reads = [x for x in walk_no_nested(trig.node, include_self=False) if isinstance(x, ast.Attribute) and isinstance(x.ctx, ast.Load) and
+           isinstance(x.value, ast.Name) and x.value.id == 'settings' and x.attr.isupper() and x.attr not in defaults]
+  seen = set()
+  for x in reads:
+    if x.attr in seen:
+      continue
+    seen.add(x.attr)
+    first = min([y for y in reads if y.attr == x.attr], key=lambda y: (y.lineno, y.col_offset))
+    node, caught = first, set()
+    while node is not trig.node and node is not None:
+      par = getattr(node, '_parent', None)
+      if isinstance(par, ast.Try) and any(node is s for s in par.body):
+        for h in par.handlers:
+          if h.type is None:
+            caught |= {'*'}
+          else:
+            caught |= {unparse(e).split('.')[-1] for e in (h.type.elts if isinstance(h.type, ast.Tuple) else [h.type])}
+      node = par
+    ok = '*' in caught or 'Exception' in caught or 'BaseException' in caught or miss <= caught or \
+        ('LookupError' in caught and miss <= {'KeyError', 'IndexError'})
+    if ok:
+      rule.ok('settings.%s (no default): %s is caught where it is read' % (x.attr, '/'.join(sorted(miss))), trig.loc(first))
+    else:
+      rule.violate('unset option kills the trigger', trig, first, 'settings.%s has no built-in default; reading it when unset raises %s '
+                   '(carbon.conf.Settings.__getattr__), which the handlers around the read (%s) do not catch: the trigger '
+                   'ends before settings.MIN_TIMESTAMP_LAG = 0 and the final pass leaves lagging datapoints in the cache'
+                   % (x.attr, '/'.join(sorted(miss)), ', '.join(sorted(caught)) or 'none'))
+
+
+def rule_stable_globals(check, cx, rule):
+  """module globals the writer thread tests and then uses (`if UPDATE_BUCKET: ... UPDATE_BUCKET.drain(...)`) are never
+  rebound by a function (the shutdown trigger and the reload tasks run in the reactor thread): a rebinding between the
+  test and the use makes the writer fail with the drained batch in hand."""
+  mod = check.repo.module('carbon.writer')
+  fn = cx.fn('carbon.writer', 'writeCachedDataPoints')
+  gl = set(mod.globals)
+  used = {}
+  for t in ast.walk(fn.node):
+    if isinstance(t, (ast.If, ast.While, ast.IfExp)):
+      tested = {x.id for x in ast.walk(t.test) if isinstance(x, ast.Name) and x.id in gl}
+      for st in (t.body if isinstance(t.body, list) else [t.body]):
+        for x in ast.walk(st):
+          if isinstance(x, ast.Attribute) and isinstance(x.value, ast.Name) and x.value.id in tested:
+            used.setdefault(x.value.id, x)
+      for x in ast.walk(t.test):       # `if not B or B.peek(1)`
+        if isinstance(x, ast.Attribute) and isinstance(x.value, ast.Name) and x.value.id in tested and \
+           isinstance(t.test, ast.BoolOp):
+          used.setdefault(x.value.id, x)
+  local = {a.arg for a in fn.node.args.args} | {x.id for x in ast.walk(fn.node) if isinstance(x, ast.Name) and isinstance(x.ctx, ast.Store)}
+  for name in sorted(set(used) - local):
+    rebinders = []
+    for f in mod.all_functions():
+      if isinstance(f.node, ast.Lambda):
+        continue
+      if any(isinstance(x, ast.Global) and name in x.names for x in ast.walk(f.node)) and \
+         any(isinstance(x, ast.Name) and x.id == name and isinstance(x.ctx, (ast.Store, ast.Del)) for x in ast.walk(f.node)):
+        rebinders.append(f)
+    if rebinders:
+      f = rebinders[0]
+      st = [x for x in ast.walk(f.node) if isinstance(x, ast.Name) and x.id == name and isinstance(x.ctx, (ast.Store, ast.Del))][0]
+      rule.violate('tested-then-used global is rebound at run time', f, st, '%s() rebinds the module global %s, which the writer thread '
+                   'tests and then dereferences (`%s`) without a lock: when the rebinding lands in between, the writer raises with '
+                   'the drained batch in hand' % (f.qualname, name, short(used[name], 40)))
+    else:
+      rule.ok('%s is bound at import only' % name, fn.loc(used[name]))
